@@ -6,7 +6,7 @@ def lit(name, defs, bound, must, unwind, tier="quick"):
     return Group("lpnum/" + name, "lpnum_readstr.c", tus=["eg_lpnum.c", "read_lp_mpq.c"], model=MODEL, defines=["FN_wellformed"] + defs + EXACT, dfcc=False,
                  unwind=unwind, kind="bounded", bound=bound + "; arbitrary terminator; loops completely unwound; exact integer model (narrow), overflow asserted absent",
                  timeout=1500, namebuf=512, must_fail=["reach_end"] + must, tier=tier,
-                 functions=["mpq_EGlpNumReadStrXc", "ILLget_value"], props=["C10", "C11"])
+                 functions=["mpq_EGlpNumReadStrXc", "ILLget_value"], props=["C10", "C11", "C17"])
 
 
 def errfmt(fn, tu, funcs):
